@@ -7,7 +7,7 @@
 //@harness to_i64_to_u8_contract serves=C14,C05 kind=complete fn=RecordValue::to_i64 note="to_i64 Ok(i) exactly for Integer value with Integer type; to_u8 Ok(i as u8) exactly when additionally min>=0 && max<=255"
 //@harness limits_are_declared_range serves=C14 kind=complete fn=RecordDataType::limits note="all data types: limits = (declared min, declared max) in the value kind of the type"
 //@harness default_color_intensity_limits serves=C14 kind=complete fn=ColorLimits::from_record_types note="each colour channel / intensity gets the limits of ITS OWN record type (three distinguishable integer types, symbolic ranges)"
-//@harness max_packet_points_total_and_fits serves=C10,C01 kind=bounded fn=get_max_packet_points note="BOUNDED in prototype length (<= 3 records; complete in the ranges): no panic, >= 1 point, and a packet of that many points fits the 16-bit length field"
+//@harness max_packet_points_total_and_fits serves=C10,C01 kind=bounded fn=get_max_packet_points note="BOUNDED in prototype length (<= 3 records; complete in the ranges): no panic, accepted, >= 1 point, and a packet of that many points fits the 16-bit length field (counterexample finder next to the unbounded Verus proof pcw/get_max_packet_points)"
 //@harness validate_groups_reject_incomplete serves=C10 kind=bounded fn=validate_cartesian/validate_spherical/validate_color note="BOUNDED to prototypes of exactly 3 records (names symbolic over the Cartesian / spherical / colour groups, duplicates included): accepted iff the three DISTINCT names of a group are all present or all absent"
 //@module
     fn fmt_stub(_a: std::fmt::Arguments<'_>) -> String { String::new() }
@@ -155,6 +155,7 @@
 
     #[kani::proof]
     #[kani::unwind(5)]
+    #[kani::stub(alloc::fmt::format, fmt_stub)]
     fn max_packet_points_total_and_fits() {
         let n: usize = kani::any();
         kani::assume(n >= 1 && n <= 3);
@@ -165,7 +166,10 @@
             i += 1;
         }
         let bits: usize = proto.iter().map(|p| p.data_type.bit_size()).sum();
-        let pts = get_max_packet_points(&proto);
+        let r = get_max_packet_points(&proto);
+        // a prototype of at most three records always fits: no error, at least one point per packet
+        let pts = match &r { Ok(p) => *p, Err(_) => 0 };
+        std::mem::forget(r);
         assert!(pts >= 1);
         // a full packet: header + n sizes + ceil(bits per stream) never exceeds the u16 length field
         let payload = (pts * bits + 7) / 8 + n;
